@@ -259,7 +259,18 @@ impl Family for C01Family {
                     small_buffers = true;
                 }
             }
-            tcp.push(TcpConn { entry: r.below(10) as u8, start_ms: r.below(300) as u64, up, down, up_gap_ms: *r.pick(&[0u64, 0, 1, 30]), down_gap_ms: *r.pick(&[0u64, 0, 1, 30]), client_end, target_mode, early_k, target_read_delay_ms: if big { 2000 } else { *r.pick(&[0u64, 0, 0, 500]) } });
+            tcp.push(TcpConn { entry: r.below(10) as u8, start_ms: r.below(300) as u64, up, down, up_gap_ms: *r.pick(&[0u64, 0, 1, 30]), down_gap_ms: *r.pick(&[0u64, 0, 1, 30]), client_end, target_mode, early_k, target_read_delay_ms: if big { 2000 } else { *r.pick(&[0u64, 0, 0, 500]) }, unreachable: false });
+        }
+        // a destination without a route named first, an IPv6-only target afterwards: one failed connect
+        // says nothing about the next destination
+        if tcp.len() >= 2 && r.chance(1, 8) {
+            tcp[0].entry = if r.chance(1, 2) { 6 } else { 8 };
+            tcp[0].target_mode = 3;
+            tcp[0].unreachable = true;
+            tcp[0].start_ms = 0;
+            tcp[0].client_end = 0;
+            tcp[1].entry = if r.chance(1, 2) { 6 } else { 8 };
+            tcp[1].start_ms = 300 + r.below(500) as u64;
         }
         if small_buffers {
             net.buf_cap = 1024;
